@@ -42,6 +42,10 @@ pub fn run(sc: &Value) -> Value {
             backup(&archive, &srcm, &opts(), TestMonitor::arc()).await.unwrap();
         }
     });
+    if sc["remove_first_version"].as_bool().unwrap_or(false) {
+        // an archive that holds no version (any more), only blocks left behind
+        std::fs::remove_dir_all(arch.join("b0000")).unwrap();
+    }
     let delete_ids: Vec<BandId> = sc["delete"].as_array().map(|a| a.iter().map(|v| BandId::from(v.as_u64().unwrap() as u32)).collect()).unwrap_or_default();
     if let Some(g) = sc["garbage_file"].as_str() {
         let data = std::fs::read(src2.join(g.trim_start_matches('/'))).unwrap();
